@@ -496,6 +496,14 @@ def gen_ops(ctx):
                 for d in (A[1] - 1, A[1], A[1] + 1, A[3] - 1, A[3], A[3] + 1, (A[1] + A[3]) // 2):
                     if lo <= d <= hi:
                         ops.append(f"di.cont {pa} {o} {d}")
+            # long intervals: iteration has no reason to behave differently after the first few weeks, which is
+            # exactly why it has to be looked at there (chunked / re-based iteration)
+            if kind in ("zero", "rnd", "min"):
+                for ln in (299, 300, 301, 599, 600, 601, 1461) + ((9_999, 40_000) if ctx.thorough else ()):
+                    if base + ln <= hi:
+                        pa = " ".join(map(str, (o, base, o, base + ln)))
+                        ops.append(f"di.len {pa}")
+                        ops.append(f"di.iter {pa}")
             ops.append(f"di.new {o} {base + 1} {o} {base}")          # end before start
             ops.append(f"di.len {o} {base + 5} {o} {base}")
         # the calendar's whole range and its two halves (adjacent), exact range ends
